@@ -58,7 +58,9 @@ def o7_11_finish_output(mir, tier):
         if ok: posts.append(('a non-empty output is not opened for verification before it is installed', Or(nent == 0, BoolVal('verify_open' in evs))))
         res.cases[('Ok ' if ok else 'Err ') + ','.join(evs)] = 1
         for label, post, m in ex.check_posts(posts, pc):
-            res.violations.append({'label': label, 'events': evs, 'replay': None, 'confirmed_by': {'reproduced': False, 'detail': 'no native scenario for this label'}})
+            # what finishing an output does with the builder / the sizes under failures is replayed by a fault sweep over the writes of a manual compaction
+            rep = 'table builder is kept' in label or 'not recorded in the metadata' in label or 'failure' in label
+            res.violations.append({'label': label, 'events': evs, 'replay': ['compaction_write_fault_sweep'] if rep else None, 'confirmed_by': None if rep else {'reproduced': False, 'detail': 'no native scenario for this label'}})
     out = mir.mk_struct('FileMetadata', allowed_seeks=Enum('None'), file_number=bv(41), file_size=bv(0), smallest_key=Enum('None'), largest_key=Enum('None'))
     cs = mir.mk_struct('CompactionState', output_files=[out], compaction_manifest={'abstract': True, '__ty': 'CompactionManifest'}, smallest_snapshot=bv(0), total_size_bytes=total0, table_builder=Enum('Some', ({'abstract': True, '__ty': 'TableBuilder'},)))
     ex.top(fn, [Ref('$cs'), {'abstract': True, '__ty': 'TableCache'}, Ref('$it')], {'$state': {'events': []}, '$cs': cs, '$tb': {'abstract': True, '__ty': 'TableBuilder'}, '$it': {'abstract': True, '__ty': 'MergingIterator'}}, pre, k)
@@ -91,3 +93,11 @@ def o7_11_finish_output(mir, tier):
     res.wall_s = time.time() - t0
     if res.violations: res.status = 'violation'
     return res
+
+
+def o7_11_confirm(v, out):
+    """Native: for k = 1..14 the k-th file-system operation on a table file (and every later one) fails while a manual compaction of two overlapping
+    level-0 tables runs: the requester must return, the background thread must not panic, the database must close (10 s watchdogs)."""
+    if out.get('_rc') != 0 and not out.get('_timeout'): return (False, 'native run failed: %s' % out.get('_stderr', '')[-300:])
+    bad = out.get('first_bad', 'none')
+    return (bad != 'none' or bool(out.get('_timeout')), 'native fault sweep over the table writes of a manual compaction: first failing step %s (%s)' % (bad, out.get(bad, 'watchdog') if bad != 'none' else 'all 14 steps end with the requester released, no panic, database closed'))
